@@ -384,3 +384,27 @@ def run(chk):
         "csg_density: orthorhombic boxes, coordinates with the 3 printed "
         "digits of the .gro file; tolerance 1e-5 relative to the table sum "
         "(printed precision)"]
+
+
+def replay(path):
+    """re-run a HistogramNew witness (min,max,nbins,periodic,v,w) in a forked
+    probe; other witnesses (legacy data sets, csg_density inputs) are
+    complete in the json file and are printed."""
+    import json
+    w = json.load(open(path))
+    wit = w.get("witness", {})
+    print(json.dumps(w, indent=1)[:4000])
+    if not all(k in wit for k in ("min", "max", "nbins", "v")):
+        return 0
+    h = _build()
+    res = vf.run_proc([h, "--mode", "probe", "--min", repr(wit["min"]),
+                       "--max", repr(wit["max"]), "--nbins",
+                       str(wit["nbins"]), "--periodic",
+                       "1" if wit.get("periodic") else "0", "--v",
+                       repr(wit["v"]), "--w", repr(wit.get("w", 1.0))],
+                      env=vf.lib_env("asan"), timeout=300)
+    print(res.out)
+    if '"t":"violation"' in res.out:
+        print("VIOLATION property=C13 replay=%s" % path)
+        return 1
+    return 0
